@@ -53,10 +53,10 @@ Theorem enum_source_total o idc uri data : enum_source o idc uri data <> None.
 Proof.
   unfold enum_source. destruct (new_matcher dialects EN) as [m0|] eqn:NM; [|exfalso; now apply en_exists].
   destruct (new_matcher_wf EN m0 NM) as [W _].
-  destruct (parse_source_total false m0 (new_builder idc) data W) as [Nc Nf].
-  destruct (parse_source false m0 (new_builder idc) data) as [d m b c|errs m b c|e m b c| |] eqn:P; try discriminate; try congruence.
+  destruct (parse_source_total (stop_first o) m0 (new_builder idc) data W) as [Nc Nf].
+  destruct (parse_source (stop_first o) m0 (new_builder idc) data) as [d m b c|errs m b c|e m b c| |] eqn:P; try discriminate; try congruence.
   destruct (print_pickles o); [|discriminate].
-  pose proof (compile_parsed false m0 (new_builder idc) data d m b c uri (b_idc b) W P) as C.
+  pose proof (compile_parsed (stop_first o) m0 (new_builder idc) data d m b c uri (b_idc b) W P) as C.
   destruct (compile uri d (b_idc b)) as [[ps i]|]; [discriminate | congruence].
 Qed.
 
